@@ -37,6 +37,15 @@ PROPS = {
         "level_note": "replacement elements are alphabet members; adversaries outside the catalogue are out of reach of any enumeration",
         "technique": "explicit-state fault/attack enumeration (E3) on real transcripts",
     },
+    "C04": {
+        "rule": "E1 grids on MAR/SON/IPA: admission = D x s x bound-list (incl. 0, unsorted, duplicated) x polynomial degree 0..s+1 x declared bound None|0..D+1 x hiding, commit (and open with a borrowed state) must refuse exactly the inadmissible triples; mislabel = all ordered pairs of trimmed bounds x polynomial kinds {zero, const, deg1, deg2, root-at-z} x hiding x points {r1,r2,1,-1,0}, honest and re-made proofs; surgery = shifted part dropped / borrowed / replaced, label dropped, unbounded commitment shown bounded; the reference relation arbitrates degenerate points, which must lie in the scheme's known degenerate set; distinct = (scheme, family, reference verdict, library class)",
+        "assumptions": TRUSTED + ["degree-bound enforcement at a fixed (non-random) point is only claimed outside the exactly computed degenerate set of the published relation"],
+        "require": {"classes": ["admitted", "refused", "presented-reject", "degenerate"], "dims": {"scheme": ["MAR", "SON", "IPA"]}},
+        "level_text": "bounded exhaustive enumeration of key configurations, degree/bound pairs and mislabelled or surgically altered transcripts on the real committer, prover and verifier; every inadmissible request must be refused and every mislabelled commitment rejected unless the published relation itself accepts at that point",
+        "design_ref": "DESIGN.md section 4 C04",
+        "level_note": "Marlin's trim accepts enforced bounds above supported_degree and enforces them; demanding an error there would exceed the property",
+        "technique": "explicit-state grid enumeration (E1) plus fault enumeration (E3) with the reference relation as arbiter",
+    },
     "C05": {
         "rule": "for k x m query grids over the slice-B set: all 2^(km) subsets of claims made false, all ordered cancelling pairs (+d,-d) for d in {1,r1}, every proof-list permutation / truncation / duplication / overwrite / surplus and per-proof shape mutation, each with true and false claims, verifier RNG in A_S; oracle = per-point checks run in label order on one sponge, AND-ed; KZG10::batch_check and streaming verify_multi_points likewise; distinct = (scheme, operator class, AND decision, batch decision class)",
         "assumptions": TRUSTED,
@@ -54,6 +63,15 @@ PROPS = {
         "design_ref": "DESIGN.md sections 3.5 and 4 C10",
         "level_note": "reference relations are written from the protocol descriptions with naive group arithmetic; only transcripts of the right shape are compared (shape mutations belong to C03/C05)",
         "technique": "explicit-state differential enumeration: real verifier vs reference relation on all single-component replacements",
+    },
+    "C11": {
+        "rule": "E2 history explorer: depth-first search over all sequences of {open([p0])@z1, open([p0,p1])@z2, batch_open(Q over two labels), open_combinations(L)} up to the tier's depth on one shared sponge, from three sponge pre-states; prover and verifier sponges are cloned at every node; invariant at every node: the check accepts and squeeze(prover sponge) == squeeze(verifier sponge); negative: every earlier proof of the same kind moved to the node (and vice versa) and every other pre-state must be non-accepted; distinct = (scheme, operation, depth, decision class)",
+        "assumptions": TRUSTED,
+        "require": {"classes": ["node-accept", "lockstep-ok", "prestate-reject"], "dims": {"scheme": ALL_SCHEMES}},
+        "level_text": "explicit-state exploration of all operation histories up to a depth on the real library, with the lock-step invariant evaluated at every node (not only at leaves) and the binding of proofs to their transcript position checked by exhaustive transposition",
+        "design_ref": "DESIGN.md section 4 C11",
+        "level_note": "histories are over a fixed committed set of two non-constant polynomials per scheme (the property's own restriction for the binding half); depth 3 quick, 4-5 thorough",
+        "technique": "explicit-state DFS over operation sequences with state cloning (history explorer E2) on real code",
     },
 }
 
